@@ -22,7 +22,7 @@ def gen_mp_spec(rng, thorough=False):
 		for _ in range(k):
 			prods.append(pid); pid += 1
 		sup.append({'label': s + 1, 'products': prods, 'slt': rng.choice([0, 1, 2]), 'olt': rng.choice([0, 0, 1]),
-					'S': rng.randint(5, 40), 'h': rng.choice([1, 2, 0.5])})
+					'S': rng.randint(5, 40), 'h': rng.choice([1, 2, 0.5]), 'ht': rng.choice([None, None, 0, 1.5]), 'rev': rng.choice([None, 0, 0.75])})
 	# multi-sourcing: a second supplier carries the first supplier's first product as well
 	msrc = None
 	if ns >= 2 and rng.random() < .45:
@@ -53,7 +53,8 @@ def gen_mp_spec(rng, thorough=False):
 		else:
 			pol = {'t': 'rQ', 'a': rng.randint(2, 8), 'b': rng.randint(2, 9)}
 		fprods.append({'index': 100 + i, 'bom': bom, 'policy': pol, 'initIL': rng.choice([None, rng.randint(0, 15)]),
-					   'demand': [rng.randint(0, 9) for _ in range(rng.randint(2, 8))], 'h': rng.choice([1, 2]), 'p': rng.choice([3, 8])})
+					   'demand': [rng.randint(0, 9) for _ in range(rng.randint(2, 8))], 'h': rng.choice([1, 2]), 'p': rng.choice([3, 8]),
+					   'rev': rng.choice([None, 0, 3, 2.5])})
 	# a multi-sourced product must really be a raw material of the factory (otherwise one of its suppliers has a BOM relation
 	# through another product and the other only the default one: a degenerate mix outside the documented use)
 	if msrc is not None and not any(b[1] == msrc for fp in fprods for b in fp['bom']):
@@ -80,7 +81,7 @@ def build_mp(spec):
 	prod_objs = {}
 	for s in spec['suppliers']:
 		n = SupplyChainNode(s['label'], supply_type='U', shipment_lead_time=s['slt'], order_lead_time=s['olt'], local_holding_cost=s['h'],
-							stockout_cost=1)
+							stockout_cost=1, in_transit_holding_cost=s.get('ht'), revenue=s.get('rev'))
 		sup_nodes[s['label']] = n
 		net.add_node(n)
 	net.add_node(f)
@@ -111,7 +112,7 @@ def build_mp(spec):
 			n.initial_inventory_level = s['S']
 	fobjs = []
 	for fp in fac['products']:
-		po = SupplyChainProduct(fp['index'], local_holding_cost=fp['h'], stockout_cost=fp['p'])
+		po = SupplyChainProduct(fp['index'], local_holding_cost=fp['h'], stockout_cost=fp['p'], revenue=fp.get('rev'))
 		for (sl, rp, num) in fp['bom']:
 			rm_index = rp if rp is not None else sup_nodes[sl]._dummy_product.index
 			po.set_bill_of_materials(raw_material=rm_index, num_needed=num)
@@ -251,7 +252,41 @@ def close(a, b):
 
 def mp_oracles(net, T, rec):
 	"""Conservation / consistency / on-order / policy predicates on the Python state, any BOM. Returns dict prop -> [failures]."""
-	bad = {'C01': [], 'C02': [], 'C03': [], 'C04': []}
+	bad = {'C01': [], 'C02': [], 'C03': [], 'C04': [], 'C05': []}
+	# C05: every cost component recomputed from the state it prices (any number of products, shared and multi-sourced raw materials)
+	grand = 0.0
+	for n in net.nodes:
+		sv = n.state_vars
+		prods = n.product_indices
+		rms = n.raw_materials_by_product('all', return_indices=True, network_BOM=True)
+		for t in range(T):
+			hold = 0.0; so = 0.0; tr = 0.0
+			for p in prods:
+				il = sv[t].inventory_level[p]
+				hold += (n.get_attribute('local_holding_cost', p) or 0) * (max(0, il) + sum(sv[t].outbound_disrupted_items[s][p] for s in sv[t].outbound_disrupted_items))
+				so += (n.get_attribute('stockout_cost', p) or 0) * sum(sv[t].backorders_by_successor[s][p] for s in sv[t].backorders_by_successor)
+				ht = n.get_attribute('in_transit_holding_cost', p)
+				if ht is None:
+					ht = n.get_attribute('local_holding_cost', p) or 0
+				for s in n.successors():
+					pl = s.state_vars[t].inbound_shipment_pipeline.get(n.index, {})
+					if p in pl:
+						tr += ht * sum(pl[p])
+			for r in dict.fromkeys(rms):
+				sups = [q for q in n.raw_material_suppliers_by_raw_material(raw_material=r, network_BOM=True) if q is not None]
+				if sups:
+					# each raw material is held once, whatever the number of products that use it; the first supplier's rate prices the stock
+					# (the code's documented workaround), each supplier's own rate prices the items it has waiting at the door
+					hold += (sups[0].get_attribute('local_holding_cost', r) or 0) * sv[t].raw_material_inventory[r]
+					for q in sups:
+						hold += (q.get_attribute('local_holding_cost', r) or 0) * sv[t].inbound_disrupted_items[q.index][r]
+			for nm, want, got in (('holding', hold, sv[t].holding_cost_incurred), ('stockout', so, sv[t].stockout_cost_incurred),
+								  ('in-transit', tr, sv[t].in_transit_holding_cost_incurred),
+								  ('total', sv[t].holding_cost_incurred + sv[t].stockout_cost_incurred + sv[t].in_transit_holding_cost_incurred - sv[t].revenue_earned, sv[t].total_cost_incurred)):
+				if not close(want, got):
+					bad['C05'].append('node %s t=%d: %s cost reported %s, the reported state prices to %s' % (n.index, t, nm, got, want))
+			grand += sv[t].total_cost_incurred
+	bad['_grand_total'] = grand
 	newfg = {(r['node'], r['period']): dict(zip(r['prods'], r['newFG'])) for r in rec['rmtofg']}
 	for n in net.nodes:
 		sv = n.state_vars
@@ -391,7 +426,12 @@ def mp_case(rep, drv, spec, prop, theorem):
 				rep.tol_cmp += 1
 				if len(o) != len(pr['orders']) or any(not close(a, unfr(b)) for a, b in zip(pr['orders'], o)):
 					diffs.append('node %s t=%d product %s raw material %s: raw-material orders %s, model %s' % (x['node'], x['period'], x['prod'], pr['rm'], pr['orders'], o))
-	fails = mp_oracles(r['net'], spec['T'], rec)[prop]
+	orc = mp_oracles(r['net'], spec['T'], rec)
+	fails = orc[prop]
+	if prop == 'C05':
+		rep.tol_cmp += 1
+		if not close(orc['_grand_total'], r['total']):
+			fails.append('simulation() returned %s but the per-period totals of all nodes add up to %s' % (r['total'], orc['_grand_total']))
 	if diffs or fails:
 		what = ''
 		if diffs:
